@@ -5,7 +5,7 @@ REPO=${1:-/repo}; JOBS=${2:-12}
 OUT=$(mktemp -d /tmp/pvtests.XXXXXX)
 cd "$REPO" || exit 2
 ls tests/test_*.py tests/algorithms/test_*.py | \
-  xargs -P "$JOBS" -I{} sh -c 'PYTHONDONTWRITEBYTECODE=1 /venv/bin/python -m pytest -q -p no:cacheprovider --timeout=900 "$1" > "$2/$(echo "$1" | tr / _).log" 2>&1; echo "$? $1" >> "$2/status"' _ {} "$OUT"
+  xargs -P "$JOBS" -I{} sh -c 'PYTHONPATH="$PWD" PYTHONDONTWRITEBYTECODE=1 /venv/bin/python -m pytest -q -p no:cacheprovider --timeout=900 "$1" > "$2/$(echo "$1" | tr / _).log" 2>&1; echo "$? $1" >> "$2/status"' _ {} "$OUT"
 passed=$(grep -ho '[0-9]* passed' "$OUT"/*.log | awk '{s+=$1} END{print s+0}')
 failed=$(grep -ho '[0-9]* failed' "$OUT"/*.log | awk '{s+=$1} END{print s+0}')
 errors=$(grep -ho '[0-9]* error' "$OUT"/*.log | awk '{s+=$1} END{print s+0}')
